@@ -14,6 +14,17 @@
 //      {ANY, HOSTNAME, SAN_DNS}  =>  accepted.
 //   4. Root-cause monitor for (2): every parsed SAN entry has the length that was minted (a trailing NUL
 //      removed), i.e. the "NUL-terminated copy" of x509.c is really a copy of the whole entry.
+//   5. NON-SUBJECT NAMES: about half of the leaves also carry names in places that do not name the subject for this
+//      check - an issuerAltName extension (1-4 GeneralNames from the same grammar as the SAN entries: equal to E,
+//      wildcard forms of E, near misses, names present nowhere else), cRLDistributionPoints fullName GeneralNames,
+//      authorityInfoAccess URIs, an authorityKeyIdentifier authorityCertIssuer directoryName, and the subject DN
+//      attributes OU / emailAddress.  The reference matcher does not see them (matching is decided by the
+//      subjectAltName entries, or by the CN only when no supported SAN exists), so oracle 1 flags every accept they
+//      cause; in addition the identical certificate without these fields is evaluated whenever the one with them
+//      is accepted: "accepted with, rejected without" is a failure (soundness direction only; the opposite
+//      direction - e.g. an issuerAltName that suppresses the CN fallback - is stricter than the property, it is
+//      counted (extras-turn-accept-into-reject), not flagged, because the model asserts no completeness for the
+//      CN fallback).
 //   + ASan/UBSan on everything.
 //
 // Deliberate tolerances (documented behaviour, never flagged):
@@ -396,8 +407,105 @@ static Ent gen_matching_entry(Tape &t, const Exp &E) {
     return r;
 }
 
+// ------------------------------------------------------------------ names that must NOT take part in subject matching
+struct Extras {
+    std::vector<Ent> ian; bool ian_first = false;            // issuerAltName
+    std::vector<std::vector<Ent>> crldp;                      // cRLDistributionPoints fullName lists
+    std::vector<c05::AiaEntry> aia;                           // authorityInfoAccess URIs
+    bool aki = false; S aki_cn;                               // authorityKeyIdentifier.authorityCertIssuer = directoryName{CN}
+    bool ou = false; S ouv;                                   // subject OU
+    bool dnemail = false; S dnemailv;                         // subject emailAddress attribute
+    bool any() const { return !ian.empty() || !crldp.empty() || !aia.empty() || aki || ou || dnemail; }
+    void apply(LeafSpec &sp) const {
+        sp.ian.clear(); for (auto &e : ian) sp.ian.push_back(e.e);
+        sp.ian_before_san = ian_first;
+        sp.crldp.clear(); for (auto &dp : crldp) { sp.crldp.emplace_back(); for (auto &e : dp) sp.crldp.back().push_back(e.e); }
+        sp.aia = aia; sp.aki_issuer = aki; sp.aki_issuer_cn = aki_cn; sp.has_ou = ou; sp.ou = ouv; sp.has_dn_email = dnemail; sp.dn_email = dnemailv;
+    }
+};
+static const Extras *g_cur_x = nullptr; // extras of the case being described (describe() appends them)
+enum { XF_IAN = 1, XF_CRLDP = 2, XF_AIA = 4, XF_AKI = 8, XF_OU = 16, XF_DNEMAIL = 32 };
+
+// A GeneralName for a non-subject extension: same grammar as the SAN entries.  Non-printable strings / malformed IP lengths make
+// psX509ParseCert refuse the whole certificate (legitimately), which tells nothing about matching, so they are kept rare.
+static Ent gen_foreign_entry(Tape &t, const Exp &E, bool matching, bool clean) {
+    Ent e = matching ? gen_matching_entry(t, E) : gen_entry(t, E);
+    bool keep_dirty = !clean && !matching && t.below(8) == 0;
+    if (!keep_dirty) {
+        bool str = e.e.kind != c05::SK_IP;
+        if (str && !printable(e.e.data) && !(matching && !clean)) { e.e.data = t.coin() ? gen_name_of_kind(t, natural_ek(e.e.kind)) : (printable(E.text) ? E.text : S("a.b")); e.how = "clean"; e.fromE = false; }
+        if (!str && e.e.data.size() != 4 && e.e.data.size() != 16) { uint8_t o[4]; gen_ip(t, o); e.e.data = S((const char *) o, 4); e.how = "clean"; e.fromE = false; }
+    }
+    return e;
+}
+// the host part a URL about E would contain
+static S url_host(const Exp &E) {
+    if (E.kind == EK_EMAIL) { size_t at = E.text.find('@'); return at == S::npos ? E.text : E.text.substr(at + 1); }
+    return printable(E.text) ? E.text : S("a.b");
+}
+static S gen_url(Tape &t, const Exp &E, const char *leaf) {
+    S h = t.below(4) == 0 ? gen_host(t, 3) : url_host(E);
+    switch (t.below(6)) {
+    case 0: return "http://" + h + "/" + leaf;
+    case 1: return "http://" + h;
+    case 2: return h;                               // bare host name in a URI field
+    case 3: return "ldap://" + h + "/cn=ca?certificateRevocationList";
+    case 4: return "https://" + h + ":443/" + leaf;
+    default: return "http://" + E.text + "/";      // E verbatim (may be an e-mail address / IP literal / weird)
+    }
+}
+static Extras gen_extras(Tape &t, const Exp &E, bool clean) {
+    static const uint8_t XM[32] = { 0, 0, 0, 0, 0, 0, 0, 0, 0, 0, 0, 0,                                     // 12/32 none (all-zero tape = no extras)
+                                    XF_IAN, XF_IAN, XF_IAN, XF_IAN, XF_IAN, XF_IAN, XF_IAN, XF_IAN, XF_IAN, XF_IAN, // 10/32 issuerAltName only
+                                    XF_IAN | XF_CRLDP, XF_IAN | XF_CRLDP, XF_IAN | XF_AIA, 63,                  // issuerAltName + others, everything
+                                    XF_CRLDP, XF_AIA, XF_AKI, XF_OU, XF_DNEMAIL, 63 & ~XF_IAN };               // one of the others, all others
+    Extras x;
+    unsigned f = XM[t.below(32)];
+    if (f & XF_IAN) {
+        static const int N[] = { 1, 2, 1, 3, 2, 4, 1, 2 };
+        int n = N[t.below(8)];
+        int forced = t.below(8) < 5 ? (int) t.below(n) : -1;   // 5/8: one entry that would match E if it were a subjectAltName
+        for (int i = 0; i < n; i++) x.ian.push_back(gen_foreign_entry(t, E, i == forced, clean));
+        x.ian_first = t.coin();
+    }
+    if (f & XF_CRLDP) {
+        int ndp = t.below(4) == 0 ? 2 : 1;
+        for (int d = 0; d < ndp; d++) {
+            x.crldp.emplace_back();
+            int n = t.below(4) == 0 ? 2 : 1;
+            for (int i = 0; i < n; i++) {
+                Ent e;
+                unsigned m = (unsigned) t.below(8);
+                if (m < 4) { e.e.kind = c05::SK_URI; e.e.data = gen_url(t, E, "ca.crl"); e.how = "url"; }   // the usual form
+                else if (m < 6) e = gen_foreign_entry(t, E, true, clean);                                    // dNSName/rfc822Name/iPAddress equal to / wildcard of E
+                else e = gen_foreign_entry(t, E, false, clean);
+                if (e.e.kind != c05::SK_IP && !printable(e.e.data) && (clean || t.below(8) != 0)) { e.e.data = "http://" + url_host(E) + "/ca.crl"; e.e.kind = c05::SK_URI; e.how = "clean"; }
+                x.crldp.back().push_back(e);
+            }
+        }
+    }
+    if (f & XF_AIA) {
+        int n = t.below(4) == 0 ? 2 : 1;
+        for (int i = 0; i < n; i++) {
+            c05::AiaEntry a; a.method = (int) t.below(2); a.uri = gen_url(t, E, a.method ? "ca.cer" : "ocsp");
+            if (!printable(a.uri) && (clean || t.below(8) != 0)) a.uri = "http://" + url_host(E) + "/ocsp";
+            x.aia.push_back(a);
+        }
+    }
+    auto plain = [&](void) -> S { // E, a wildcard form of E, or a case variant
+        unsigned m = (unsigned) t.below(4);
+        S v = m == 1 ? derive(t, E.text, R_WILD1) : m == 2 ? case_flip(t, E.text) : E.text;
+        if (!printable(v) && (clean || t.below(8) != 0)) v = url_host(E);
+        return v;
+    };
+    if (f & XF_AKI) { x.aki = true; x.aki_cn = plain(); }
+    if (f & XF_OU) { x.ou = true; x.ouv = plain(); }
+    if (f & XF_DNEMAIL) { x.dnemail = true; x.dnemailv = E.kind == EK_EMAIL || t.coin() ? plain() : "a@" + plain(); }
+    return x;
+}
+
 // ------------------------------------------------------------------ running the real code
-struct Verdict { int parse_rc = 0; int rc = 0; int auth = 0; int flags = 0; bool parsed = false; bool accept = false; S structural; };
+struct Verdict { int parse_rc = 0; int rc = 0; int auth = 0; int flags = 0; bool parsed = false; bool accept = false; bool san_misaligned = false; size_t san_parsed = 0; S structural; };
 
 static Verdict evaluate(const Bytes &der, const LeafSpec &sp, const char *expected /* may be NULL */, int nameType, unsigned mFlags, unsigned vflags) {
     Verdict v;
@@ -411,6 +519,7 @@ static Verdict evaluate(const Bytes &der, const LeafSpec &sp, const char *expect
         x509GeneralName_t *n = leaf->extensions.san; size_t cnt = 0; bool aligned = true;
         for (; n; n = n->next, cnt++) if (cnt >= sp.san.size() || (int) n->id != GN_ID[sp.san[cnt].kind]) aligned = false;
         if (cnt != sp.san.size()) aligned = false;
+        v.san_misaligned = !aligned; v.san_parsed = cnt;
         n = leaf->extensions.san;
         for (size_t i = 0; aligned && n; n = n->next, i++) {
             const S &d = sp.san[i].data;
@@ -495,7 +604,18 @@ static S describe(const Exp &E, int nameType, unsigned mFlags, unsigned vflags, 
         s += KCH[e.e.kind]; s += ':';
         s += e.e.kind == c05::SK_IP ? hex(e.e.data.data(), e.e.data.size()) : "\"" + esc(e.e.data) + "\"";
     }
-    return s + "]";
+    s += "]";
+    if (g_cur_x && g_cur_x->any()) {
+        const Extras &x = *g_cur_x;
+        auto gn = [](const Ent &e) { return S(1, KCH[e.e.kind]) + ":" + (e.e.kind == c05::SK_IP ? hex(e.e.data.data(), e.e.data.size()) : "\"" + esc(e.e.data) + "\""); };
+        if (!x.ian.empty()) { s += x.ian_first ? " issuerAltName(before SAN)=[" : " issuerAltName(after SAN)=["; for (size_t i = 0; i < x.ian.size(); i++) s += (i ? ", " : "") + gn(x.ian[i]); s += "]"; }
+        for (auto &dp : x.crldp) { s += " crlDP=["; for (size_t i = 0; i < dp.size(); i++) s += (i ? ", " : "") + gn(dp[i]); s += "]"; }
+        for (auto &a : x.aia) s += fmt(" AIA-%s=\"%s\"", a.method ? "caIssuers" : "ocsp", esc(a.uri).c_str());
+        if (x.aki) s += " AKI-issuer-CN=\"" + esc(x.aki_cn) + "\"";
+        if (x.ou) s += " OU=\"" + esc(x.ouv) + "\"";
+        if (x.dnemail) s += " DN-email=\"" + esc(x.dnemailv) + "\"";
+    }
+    return s;
 }
 
 // classify an accept that the reference refuses, so that distinct root causes get distinct stable signatures.  A specific
@@ -575,6 +695,9 @@ static void prop(Tape &t, Ctx &c) {
     int hs_ver = t.coin() ? mxh::TLS13 : mxh::TLS12;
     uint64_t hs_seed = t.u16();
     std::vector<std::vector<int>> perms = choose_perms(t, (int) ents.size());
+    g_cur_x = nullptr;
+    Extras X = gen_extras(t, E, smoke); // drawn last: tapes recorded before this dimension existed decode to the same (E, CN, SAN, permutations)
+    g_cur_x = &X;
 
     // ---- statistics and the non-trivial rule
     std::set<S> rels; bool nm = false;
@@ -588,6 +711,39 @@ static void prop(Tape &t, Ctx &c) {
     }
     if (cn.has_cn) { S s; const char *r = ref_cn_string(cn, s) ? relation(E.text, s) : relation(E.text, cn.cn); rels.insert(S("C:") + r); c.count(S("rel-cn-") + r); c.count(fmt("cn-type-%d", cn.cn_type)); if (near_miss(r)) nm = true; }
     else c.count("cn-absent");
+    // non-subject names: would they match if they were subject names?  (statistics + non-trivial rule only; the reference never sees them)
+    S xkey; bool ian_would = false, other_would = false;
+    {   auto would = [&](const SanEntry &e) { CertNames one; one.san.push_back(e); return ref_accept(E.text, nameType, 0, one); };
+        auto cn_would = [&](const S &v) { CertNames one; one.has_cn = true; one.cn = v; one.cn_type = c05::CN_UTF8; return ref_accept(E.text, nameType, 0, one); };
+        auto elsewhere = [&](const Ent &e) { for (auto &s2 : ents) if (s2.e.kind == e.e.kind && s2.e.data == e.e.data) return true; return cn.has_cn && cn.cn == e.e.data; };
+        if (!X.any()) c.count("x-none");
+        if (!X.ian.empty()) {
+            c.count("x-ian"); c.count(fmt("ian-len-%zu", X.ian.size())); c.count(X.ian_first ? "ian-before-san" : "ian-after-san");
+            std::set<S> irels; bool only = false;
+            for (auto &e : X.ian) {
+                S txt = e.e.kind == c05::SK_IP ? (e.e.data.size() >= 4 ? ip_text((const uint8_t *) e.e.data.data()) : S("?")) : e.e.data;
+                const char *r = relation(E.text, txt);
+                c.count(S("ian-kind-") + KCH[e.e.kind]); c.count(S("rel-ian-") + r);
+                irels.insert(S(1, KCH[e.e.kind]) + ":" + r);
+                if (would(e.e)) ian_would = true;
+                if (!elsewhere(e)) only = true;
+                if (near_miss(r) || !strcmp(r, "equal")) nm = true;
+                xkey += KCH[e.e.kind];
+            }
+            xkey = "ian=" + xkey + ":"; for (auto &r : irels) xkey += r + ",";
+            if (only) c.count("ian-has-name-present-nowhere-else");
+            if (ian_would) c.count("ian-would-match-E");
+            bool supported = false; for (auto &e : ents) if (supported_kind(e.e.kind)) supported = true;
+            bool isup = false; for (auto &e : X.ian) if (supported_kind(e.e.kind)) isup = true;
+            if (cn.has_cn && !supported) { c.count("ian-with-cn-and-no-supported-san"); if (isup) c.count("ian-supported-kind-with-cn-and-no-supported-san"); }
+        }
+        if (!X.crldp.empty()) { c.count("x-crldp"); for (auto &dp : X.crldp) for (auto &e : dp) { c.count(S("crldp-kind-") + KCH[e.e.kind]); if (would(e.e)) other_would = true; if (e.e.data.find(E.text) != S::npos) c.count("crldp-contains-E"); } xkey += "|dp"; }
+        if (!X.aia.empty()) { c.count("x-aia"); for (auto &a : X.aia) if (a.uri.find(E.text) != S::npos) c.count("aia-contains-E"); xkey += "|aia"; }
+        if (X.aki) { c.count("x-aki-issuer"); if (cn_would(X.aki_cn)) other_would = true; xkey += "|aki"; }
+        if (X.ou) { c.count("x-dn-ou"); if (cn_would(X.ouv)) other_would = true; xkey += "|ou"; }
+        if (X.dnemail) { c.count("x-dn-email"); SanEntry e{ c05::SK_EMAIL, X.dnemailv }; if (would(e) || cn_would(X.dnemailv)) other_would = true; xkey += "|dnemail"; }
+        if (other_would) c.count("other-non-subject-name-would-match-E");
+    }
     c.count(fmt("san-len-%zu", ents.size())); c.count(issuer == c05::ISS_EC ? "issuer-ec" : "issuer-rsa"); c.count(S("nameType-") + NTN[nameType]); c.count(fmt("mFlags-%u", mFlags)); c.count(S("E-kind-") + EKN[E.kind]);
     if (!E.judged) c.count("E-nonprintable-unjudged");
     if (smoke) c.count("smoke-cases");
@@ -596,14 +752,19 @@ static void prop(Tape &t, Ctx &c) {
     if (nm || ents.size() >= 2) {
         S key = shape + "|" + NTN[nameType] + "|" + std::to_string(mFlags) + "|";
         for (auto &r : rels) key += r + ",";
+        key += "|" + xkey;
         c.nontrivial(key);
         c.count("nontrivial");
     }
     bool ref = ref_accept(E.text, nameType, mFlags, cn);
     c.count(ref ? "ref-accept" : "ref-reject");
+    if (ian_would) c.count(ref ? "ian-would-match-E&ref-accept" : "ian-would-match-E&ref-reject");
+    if (other_would && !ref) c.count("other-non-subject-name-would-match-E&ref-reject");
+    if (!X.ian.empty() && ref) { bool sanhit = false; { CertNames nocn = cn; nocn.has_cn = false; sanhit = ref_accept(E.text, nameType, mFlags, nocn); } if (!sanhit) c.count("ian-present&ref-accept-by-cn-only"); }
 
     // ---- run every permutation through the real code
     LeafSpec sp; sp.has_cn = cn.has_cn; sp.cn_type = cn.cn_type; sp.cn = cn.cn; sp.san_critical = crit; sp.issuer = issuer;
+    X.apply(sp);
     std::vector<Verdict> vs; Bytes first_der;
     for (size_t pi = 0; pi < perms.size(); pi++) {
         sp.san.clear(); for (int i : perms[pi]) sp.san.push_back(ents[i].e);
@@ -618,6 +779,8 @@ static void prop(Tape &t, Ctx &c) {
         vs.push_back(v);
     }
     const Verdict &v0 = vs[0];
+    if (v0.parsed && v0.san_misaligned) c.count("monitor-parsed-san-list-differs-from-minted");
+    if (X.any()) c.count(!v0.parsed ? "x-verdict-parse-fail" : v0.accept ? "x-verdict-accept" : "x-verdict-reject");
     c.count(!v0.parsed ? "verdict-parse-fail" : v0.accept ? "verdict-accept" : (v0.rc == PS_ARG_FAIL ? "verdict-arg-fail" : "verdict-reject"));
     if (v0.accept && !E.judged) c.count("accept-unjudged");
     if (ref && !v0.accept) c.count("stricter-than-reference");
@@ -631,6 +794,26 @@ static void prop(Tape &t, Ctx &c) {
                     describe(E, nameType, mFlags, vflags, cn, ents, &perms[pi]).c_str(), vs[pi].accept ? "ACCEPT" : vs[pi].parsed ? "reject" : "parse-fail", vs[pi].parsed ? vs[pi].rc : vs[pi].parse_rc);
     }
     if (perms.size() > 1) c.count("perm-sets-checked");
+    // oracle 5: names outside subjectAltName / subject CN never turn a reject into an accept (control = the same certificate without them)
+    if (X.any() && (!v0.parsed || v0.accept || ref)) {
+        LeafSpec sp0 = sp; Extras none; none.apply(sp0);
+        sp0.san.clear(); for (int i : perms[0]) sp0.san.push_back(ents[i].e);
+        sp0.serial = 0x1000;
+        Bytes der0;
+        if (!c05::mint_leaf(sp0, der0)) { c.count("mint-failed"); throw Discard(); }
+        Verdict ctl = evaluate(der0, sp0, E.text.c_str(), nameType, mFlags, vflags);
+        c.count("control-certs-evaluated");
+        if (!v0.parsed) c.count(ctl.parsed ? "x-parse-fail-caused-by-non-subject-field" : "x-parse-fail-also-without-non-subject-fields"); // generator health: the former must stay rare
+        if (v0.accept && ctl.parsed && !ctl.accept)
+            VF_FAIL("accepts-name-from-non-subject-field", "ACCEPTED, but the identical certificate without the issuerAltName / CRL-DP / AIA / AKI-issuer / OU / DN-email names is rejected (rc=%d): a name that does not name the subject decided the match: %s",
+                    ctl.rc, describe(E, nameType, mFlags, vflags, cn, ents, nullptr).c_str());
+        if (ctl.accept && E.judged && !ref) { // oracle 1 on the control certificate (keeps the cases useful whose non-subject fields were refused by the parser)
+            g_cur_x = nullptr;
+            VF_FAIL(classify_wrong_accept(E.text, nameType, issuer, cn), "matrixValidateCertsExt ACCEPTED but no name in the certificate matches per the property: %s",
+                    describe(E, nameType, mFlags, vflags, cn, ents, nullptr).c_str());
+        }
+        if (v0.parsed && !v0.accept && ctl.accept) { c.count("extras-turn-accept-into-reject"); if (!X.ian.empty()) c.count("ian-turns-accept-into-reject"); }
+    }
     // oracle 1: accepts => reference accepts
     if (v0.accept && E.judged && !ref)
         VF_FAIL(classify_wrong_accept(E.text, nameType, issuer, cn), "matrixValidateCertsExt ACCEPTED but no name in the certificate matches per the property: %s",
@@ -715,10 +898,29 @@ static void run_probe(bool crash) {
         double t3 = now_s();
         printf("cost (%s issuer): mint %.2f ms, parse %.2f ms, parse+validate %.2f ms per certificate\n", iss ? "RSA" : "EC", (t1 - t0) * 1000 / N, (t2 - t1) * 1000 / N, (t3 - t2) * 1000 / N);
     }
+    {   // non-subject names (issuerAltName etc.): none of these may be accepted for "ca.b"
+        Extras x; Ent e; e.e = SanEntry{ c05::SK_DNS, "ca.b" }; x.ian.push_back(e); e.e = SanEntry{ c05::SK_EMAIL, "pki@ca.b" }; x.ian.push_back(e);
+        x.crldp.emplace_back(); e.e = SanEntry{ c05::SK_DNS, "ca.b" }; x.crldp.back().push_back(e); e.e = SanEntry{ c05::SK_URI, "http://ca.b/ca.crl" }; x.crldp.back().push_back(e);
+        x.aia.push_back(c05::AiaEntry{ 0, "http://ca.b/ocsp" }); x.aki = true; x.aki_cn = "ca.b"; x.ou = true; x.ouv = "ca.b"; x.dnemail = true; x.dnemailv = "pki@ca.b";
+        g_cur_x = &x;
+        for (int withsan = 0; withsan < 2; withsan++) {
+            CertNames cc; cc.has_cn = true; cc.cn = "leaf.b"; if (withsan) cc.san.push_back(SanEntry{ c05::SK_DNS, "leaf.b" });
+            LeafSpec sp; sp.issuer = 1; sp.has_cn = true; sp.cn = cc.cn; sp.san = cc.san; x.apply(sp);
+            Bytes der; if (!c05::mint_leaf(sp, der)) { printf("extras: mint failed\n"); continue; }
+            std::vector<Ent> ents; for (auto &s2 : cc.san) { Ent q; q.e = s2; ents.push_back(q); }
+            static const struct { const char *E; int nt; } Q[] = { { "leaf.b", NT_ANY }, { "ca.b", NT_ANY }, { "ca.b", NT_SAN_DNS }, { "ca.b", NT_CN }, { "pki@ca.b", NT_ANY }, { "pki@ca.b", NT_SAN_EMAIL } };
+            for (auto &q : Q) {
+                Verdict v = evaluate(der, sp, q.E, q.nt, 0, 0); Exp XE; XE.text = q.E;
+                printf("non-subject names %-8s %s -> %s (parse=%d rc=%d) reference=%s\n", withsan ? "(SAN)" : "(CN only)", describe(XE, q.nt, 0, 0, cc, ents, nullptr).c_str(),
+                       v.accept ? "ACCEPT" : v.parsed ? "reject" : "parse-fail", v.parse_rc, v.rc, ref_accept(q.E, q.nt, 0, cc) ? "accept" : "reject");
+            }
+        }
+        g_cur_x = nullptr;
+    }
     if (crash) { san({ { c05::SK_DNS, S("x\0", 2) }, { c05::SK_DNS, "a.b" } });       probe_line("f6 dNSName after NUL-terminated", 1, "a.b", NT_SAN_DNS, 0, c); }
 }
 
-VF_TARGET("c05_names", prop, 320, 60)
+VF_TARGET("c05_names", prop, 400, 60)
 
 namespace vf {
 void vf_global_init(int argc, char **argv) {
